@@ -40,6 +40,17 @@ SCENARIOS = {
     # right behind its CONNECT answer
     'receive-reconnect': (['loss'], [('receive', 5)],
                           {'reconnection': True, 'greeting': 'e1'}),
+    # a burst is buffered, then the connection is lost (and comes back
+    # later): whichever wait expires or wakes, the order is kept
+    'burst-then-loss': (['e1', 'e2', 'loss'],
+                        [('receive', 5), ('receive', 5)],
+                        {'reconnection': True}),
+    # the application calls connect() on a client that is connected (an
+    # error, RuntimeError) while events are buffered or arriving
+    'connect-again': (['e1', 'e2'],
+                      [('connect-again',), ('receive', None),
+                       ('receive', None)],
+                      {}),
     'emit-final': (['loss'], [('emit',), ('wait-final',), ('call',),
                               ('emit',)],
                    {'reconnection': True, 'reconnect_fails': True}),
@@ -169,6 +180,12 @@ def scenario_for(name):
                     elif call[0] == 'call':
                         sc.call('x', 1, timeout=5)
                         st['results'].append(('call-ok',))
+                    elif call[0] == 'connect-again':
+                        try:
+                            sc.connect('http://h')
+                            st['results'].append(('connect-again-ok',))
+                        except RuntimeError:
+                            st['results'].append(('connect-again-refused',))
                     elif call[0] == 'wait-final':
                         gone.wait()
                         st['results'].append(('final-seen',))
@@ -276,7 +293,11 @@ def judge(name, out):
             if r[0] == 'call-ok':
                 v.append(('C19/emit-after-final', f'{name}: call() returned '
                           f'although nobody acknowledged'))
-    if name in ('burst2', 'burst3'):
+    if name == 'connect-again':
+        if ('connect-again-refused',) not in out['results']:
+            v.append(('C19/connect-again', f'{name}: connect() on a '
+                      f'connected client: {out["results"]}'))
+    if name in ('burst2', 'burst3', 'connect-again'):
         if got != arrived:
             v.append(('C19/missing-event', f'{name}: got {got}, arrived '
                       f'{arrived}'))
@@ -361,7 +382,7 @@ def run(tier, seed, result):
         '(append + signal) before the wait expired',
     ]
     return dict(
-        rule='8 producer/consumer scenarios (bursts, timed receives, final '
+        rule='12 producer/consumer scenarios (bursts, timed receives, final '
              'loss, emit during successful/failed reconnection) under every '
              'schedule with a bounded number of preemptions at line '
              'granularity of simple_client.py plus every event operation; '
